@@ -117,7 +117,10 @@ class Interp:
         self.depth = 0
         self.cur_plain = []         # tokens of arg-less dispatches in flight
         self.inflight_ok = set()    # tokens allowed to finish while disabled
-        self.pending_add = set()    # on_add queued: the queue holds them
+        self.pending_add = Counter()  # queued on_add events not yet delivered
+        self.held = set()           # slots a queued event may hold strongly
+                                    # (exempt from death checks until the
+                                    # queue has been released completely)
         self.die_later = set()
         self.last_exc_type = None
         for s in range(len(self.cfg['handlers'])):
@@ -156,7 +159,8 @@ class Interp:
                       'self=None')
         s = int(obj._label[1:])
         self.trace.add('life', s, 'on_add')
-        self.pending_add.discard(s)
+        if self.pending_add[s] > 0:
+            self.pending_add[s] -= 1
         self.probes['on_add_delivered'] += 1
 
     def settle_die_later(self):
@@ -171,7 +175,7 @@ class Interp:
     def must_be_dead_now(self, s, how):
         """The program has just dropped its last reference to slot s: with
         weak registration only, the object dies at this very instant."""
-        if s in self.cfg.get('cyclic', []) or s in self.pending_add:
+        if s in self.cfg.get('cyclic', []) or s in self.held:
             return False
         if any(slot == s for slot, _ in self.cbstack):
             return False                # its own callback is on the stack
@@ -196,7 +200,7 @@ class Interp:
                       f'live instance of its slot')
         if (s not in self.handlers and s not in self.eids
                 and s not in self.limbo and s not in self.limbo_unreg
-                and s not in self.pending_add and s not in self.die_later):
+                and s not in self.held and s not in self.die_later):
             self.fail('C10', 'called_after_gone', f'{lab}.{mname} called '
                       f'after the program dropped its last reference')
         token = None
@@ -347,7 +351,8 @@ class Interp:
         self.registered.add(s)
         self.touch(s)
         if 'on_add' in self.emap(s) and not self.enabled and e is None:
-            self.pending_add.add(s)
+            self.pending_add[s] += 1
+            self.held.add(s)
             self.probes['pending_event_keeps_alive'] += 1
         if s in self.cfg.get('weak_slots', []):
             del self.handlers[s]        # the world is the only owner now
@@ -378,8 +383,8 @@ class Interp:
             thunk = lambda: self.d.delete_entity(eid, immediate=True)  # noqa
         self.registered.discard(s)
         self.touch(s)
-        if sole and s in self.pending_add:
-            self.die_later.add(s)       # a queued on_add still holds it
+        if sole and s in self.held:
+            self.die_later.add(s)       # a queued on_add may still hold it
         elif sole and s in self.cfg.get('cyclic', []):
             self.limbo_unreg.add(s)     # unregistered, dies at the next gc
         elif sole:
@@ -389,7 +394,7 @@ class Interp:
                 'mid_dispatch' if self.cbstack else 'between_ops')] += 1
         e = self.guarded(thunk, ('C10', 'C03'), f'{how}(h{s})')
         if sole and e is None:
-            if s in self.pending_add:
+            if s in self.held:
                 self.must_die.pop(s, None)
                 self.die_later.add(s)
             elif self.must_be_dead_now(s, how):
@@ -426,8 +431,8 @@ class Interp:
             return None
         self.registered.discard(s)
         self.touch(s)
-        if s in self.pending_add:
-            self.die_later.add(s)       # a queued on_add still holds it
+        if s in self.held:
+            self.die_later.add(s)       # a queued on_add may still hold it
             del self.handlers[s]
             return None
         self.must_die[s] = self.wrefs[s]
@@ -458,6 +463,7 @@ class Interp:
         self.queue = []
         self.half.clear()
         self.pending_add.clear()
+        self.held.clear()
         self.enabled = True             # EventDispatcher.clear re-enables
         e = self.guarded(lambda: self.d.clear(), ('C10', 'C03'), 'clear()')
         for s in victims:
@@ -648,10 +654,12 @@ class Interp:
                 self.judge_token(q, stable, rec, full=True)
             self.queue = []
             self.half.clear()
-            if self.pending_add and not self.cbstack:
+            left = sorted(k for k, v in self.pending_add.items() if v > 0)
+            if left and not self.cbstack:
                 self.fail(('C10', 'C02'), 'callback_missing', f'on_add '
-                          f'postponed for h{sorted(self.pending_add)} was '
-                          f'not delivered by the enabling assignment')
+                          f'postponed for h{left} was not delivered by the '
+                          f'enabling assignment')
+            self.held.clear()
             self.settle_die_later()
             return
         # partial release: a callback raised or disabled dispatching again
